@@ -279,7 +279,7 @@ func c18Gen(rt *rapid.T) c18Case {
 	if rapid.IntRange(0, 9).Draw(rt, "long") == 0 {
 		n = rapid.IntRange(60, 200).Draw(rt, "nopsLong")
 	}
-	kinds := []string{"arrive", "sub", "sub", "sub", "unsub", "unsub", "depart", "inclose", "newhandler", "newhandler", "next", "next", "next", "nextblock", "nextblock", "nextblock", "nextblock", "burst", "burst", "race", "race", "cancelwait", "cancelhandler", "adv"}
+	kinds := []string{"arrive", "sub", "sub", "sub", "unsub", "unsub", "depart", "inclose", "newhandler", "newhandler", "newhandlerrace", "next", "next", "next", "nextblock", "nextblock", "nextblock", "nextblock", "burst", "burst", "race", "race", "cancelwait", "cancelhandler", "adv"}
 	for i := 0; i < n; i++ {
 		c.Ops = append(c.Ops, c18Op{Op: rapid.SampledFrom(kinds).Draw(rt, "op"), P: rapid.IntRange(1, c.Peers).Draw(rt, "p"), H: rapid.IntRange(0, 2).Draw(rt, "h"), Ms: rapid.IntRange(0, 50).Draw(rt, "ms")})
 	}
@@ -430,6 +430,46 @@ func c18RunInBubble(t *testing.T, c c18Case, res *vfResult) {
 				continue
 			}
 			hs = append(hs, &hstate{h: h, f: newC18Fold()})
+		case "newhandlerrace":
+			// a handler is created while a membership change of peer P is already waiting for the event loop: the change
+			// is served first, then the handler takes its snapshot; its stream must start from that snapshot
+			if len(hs) >= 3 {
+				continue
+			}
+			gate := make(chan struct{})
+			n.ps.eval <- func() { <-gate }
+			n.settle()
+			f := n.fake(op.P)
+			var in bool
+			// (the loop is held: read the membership directly)
+			_, in = n.ps.topics[topicName][f.ID]
+			rpcDone := make(chan struct{})
+			go func() {
+				defer close(rpcDone)
+				n.recv(op.P, vfSubRPC(topicName, !in))
+			}()
+			n.settle()
+			type hres struct {
+				h   *TopicEventHandler
+				err error
+			}
+			hch := make(chan hres, 1)
+			go func() {
+				h, err := th.EventHandler()
+				hch <- hres{h, err}
+			}()
+			n.settle()
+			close(gate)
+			<-rpcDone
+			hr := <-hch
+			n.settle()
+			if hr.err != nil {
+				res.violate("C18/handler-error", step, "%v", hr.err)
+				continue
+			}
+			hs = append(hs, &hstate{h: hr.h, f: newC18Fold()})
+			nt = true
+			res.label("handler-created-behind-a-pending-change")
 		case "next":
 			if op.H >= len(hs) || hs[op.H].cancelled || blockedOn(op.H) > 0 {
 				continue
